@@ -240,6 +240,8 @@ fn fill_report(ctx: &Ctx, rep: &mut Report, st: &Stats, cases: u64) {
     rep.set("distinct_nontrivial", st.states);
     rep.set("cases_wire_x_policy", cases);
     rep.set("max_history_depth", st.max_depth);
+    rep.set("cases_stopped_by_cap", st.capped_cases);
+
 }
 
 pub fn c01(ctx: &Ctx) -> Report {
@@ -349,7 +351,7 @@ pub fn c01(ctx: &Ctx) -> Report {
     rep.set("large_regime_cases", n_large as u64);
     rep.set("payload_lengths_small", format!("0..={max_len}, all chunkings (compositions) x 6 size-line decorations x trailing garbage"));
     rep.set("cut_bound_completed", max_cut_bound_small as u64);
-    rep.set("exhaustive", true);
+    rep.set("exhaustive", st.capped_cases == 0);
     rep.set(
         "rule",
         "every (wire, segmentation policy) case is searched completely over caller read-size sequences {0,1,2,3,7,8192,200000} + terminals bytes/write_to/text_utf8/text with state merging; a state is non-trivial/distinct when its key (transport position + Debug of the reader stack + oracle cursor) is new within its case",
@@ -380,6 +382,15 @@ pub fn c02(ctx: &Ctx) -> Report {
         garbage: false,
         corrupt: None,
     });
+    // and one whose big chunk leaves more than any read buffer outstanding after the first 64 KiB
+    wires.push(WireSpec {
+        framing: Framing::Chunked,
+        len: 140001 + 1,
+        chunks: vec![1, 140001],
+        deco: Deco::Plain,
+        garbage: false,
+        corrupt: None,
+    });
     let kinds = [
         FaultKind::Reset,
         FaultKind::WouldBlock,
@@ -393,11 +404,22 @@ pub fn c02(ctx: &Ctx) -> Report {
         let (total, body_start) = wire_len(&w);
         let large = w.len > 1000;
         let offsets: Vec<usize> = if large {
-            structural_offsets(&w)
+            let mut o = structural_offsets(&w);
+            // inside the data of the last (big) chunk, beyond its first 64 KiB
+            let big = *w.chunks.last().unwrap();
+            let data_start = total - 5 - 2 - big;
+            for d in [65536 + 7, 65536 + 4096, 65536 + 8193, 100_000, 131_072 + 5, big - 1000] {
+                if d < big {
+                    o.push(data_start + d);
+                }
+            }
+            o.sort();
+            o.dedup();
+            o
         } else {
             (body_start.saturating_sub(3)..=total).collect()
         };
-        let sz: Vec<usize> = if large { vec![4096, 65536, 200000] } else { sizes.clone() };
+        let sz: Vec<usize> = if large { vec![4096, 8192, 65536, 200000] } else { sizes.clone() };
         let extra_policies = |at: usize| -> Vec<Policy> {
             let mut v = vec![Policy::default(), Policy { cuts: vec![], uniform: Some(1) }];
             if !large {
@@ -525,7 +547,7 @@ pub fn c02(ctx: &Ctx) -> Report {
     rep.set("cases_connection_drop", n_cut);
     rep.set("cases_io_error", n_fault);
     rep.set("cases_framing_corruption", n_corrupt);
-    rep.set("exhaustive", true);
+    rep.set("exhaustive", st.capped_cases == 0);
     rep.set(
         "rule",
         format!("every wire of the small regime (payload 0..={max_len}, all chunkings) plus one 65537-byte chunk x one fault: EOF at every offset of body and head tail, I/O error (reset sticky / would-block / timed-out / interrupted transient) at every such offset, every single-byte substitution (9 values), deletion and insertion (2 values) of every framing byte; x segmentation policies; x every caller read-size sequence over {{0,1,3,8192}} + terminals, continuing for up to 3 operations after the first error; distinct = new state key within its case"),
@@ -610,7 +632,7 @@ pub fn c19(ctx: &Ctx) -> Report {
     let (st, n) = run_cases(ctx, cases);
     let mut rep = Report::new("model_checking");
     fill_report(ctx, &mut rep, &st, n);
-    rep.set("exhaustive", true);
+    rep.set("exhaustive", st.capped_cases == 0);
     rep.set(
         "rule",
         format!("every small-regime wire (payload 0..={max_len}, all chunkings, 3 framings) and one 70000-byte chunk x a pause at every byte offset (structural offsets for the large wire) x segmentations of the prefix (none, uniform 1/2/3, every 1- and 2-cut set) x every caller read-size sequence over {{1,2,3,7,8192,200000}} with state merging; the transport answers a read at the pause with a marker error, ending the execution at the moment a real client would block for ever"),
